@@ -928,6 +928,20 @@ class TypesCodeGenerator:
                         t.kind == "base" and t.name == "null"
                         for t in request.result.items
                     )
+                    if self._has_type(result_class_name) and not (
+                        request.result.kind == "or"
+                        and [
+                            (t.kind, getattr(t, "name", None))
+                            for t in request.result.items
+                            if not (t.kind == "base" and t.name == "null")
+                        ]
+                        == [("reference", result_class_name)]
+                    ):
+                        # The model declares a type called `<Name>Result` itself and
+                        # the result is not just that type (or null): the alias for
+                        # the result needs a name of its own.
+                        while self._has_type(result_class_name):
+                            result_class_name += "_"
                     result_type = (
                         f"Optional[{result_class_name}]"
                         if is_optional
